@@ -15,7 +15,14 @@ LEVEL = "translation_validation"
 
 def classify_build(out, feats):
     """Narrow signature of a compile failure."""
-    msgs = [l for l in out.splitlines() if re.search(r"\.go:\d+:\d+:", l)]
+    # `go build` prints the failing packages in no fixed order: go by the first message of the alphabetically first package
+    pkgs, cur = {}, ""
+    for l in out.splitlines():
+        if l.startswith("# "):
+            cur = l[2:].split()[0]
+        elif re.search(r"\.go:\d+:\d+:", l):
+            pkgs.setdefault(cur, []).append(l)
+    msgs = pkgs[min(pkgs)] if pkgs else []
     first = msgs[0] if msgs else out.strip().splitlines()[-1] if out.strip() else "?"
     m = re.search(r"\.go:\d+:\d+: (.*)", first)
     msg = m.group(1) if m else first
